@@ -25,7 +25,7 @@ FUEL = 40
 
 def keymap():
     from prompt_toolkit.keys import Keys
-    return {0: Keys.Any, 1: "a", 2: "b", 3: "c", 4: "d", 5: Keys.ControlX}
+    return {0: Keys.Any, 1: "a", 2: "b", 3: "c", 4: "d", 5: Keys.ControlX, 6: Keys.CPRResponse}
 
 
 _APP = None
@@ -146,6 +146,15 @@ class CountingDeque(deque):
         r.on_pop(x)
         return x
 
+    def remove(self, x):
+        # process_keys after is_done: the first cursor position report is taken out of the queue
+        r = self.run
+        if r.sends >= r.fuel:
+            raise Abort()
+        r.sends += 1
+        super().remove(x)
+        r.on_pop(x, taken=True)
+
     def extendleft(self, it):
         items = list(it)
         r = self.run
@@ -195,6 +204,10 @@ class KPRun:
         self.calls = []       # oracle records
         self.drops = []
         self.backs = []
+        self.cpr_snap = None
+        self.env_for_pending = None
+        self.cpr_broken = []
+        self.cpr_calls = []
         self.in_handler = False
         self.watchdog_s = 10
         self.raise_info = None
@@ -205,12 +218,33 @@ class KPRun:
     def from_item(self, kp):
         return -1 if kp is self.Flush else self.RK.get(kp.key, -7)
 
-    def on_pop(self, kp):
+    def prev_now(self):
+        p = self.p
+        h = p._previous_handler
+        if h is None and not p._previous_key_sequence:
+            return []
+        return [getattr(getattr(h, "handler", None), "_c04i", -7), [self.RK.get(k.key, -7) for k in p._previous_key_sequence]]
+
+    def check_cpr_frame(self):
+        """a delivered cursor position report must have left key_buffer and the previous-key bookkeeping alone"""
+        if self.cpr_snap is not None:
+            now = ([self.RK.get(k.key, -7) for k in self.p.key_buffer], self.prev_now())
+            if now != self.cpr_snap:
+                self.cpr_broken.append({"before": self.cpr_snap, "after": now})
+            self.cpr_snap = None
+
+    def on_pop(self, kp, taken=False):
         k = self.from_item(kp)
+        self.check_cpr_frame()
         self.sync(len(self.p.key_buffer))     # the generator is at `yield`: settle the drops of the previous send
         self.popped.append(k)
-        self.events.append([4, k])
+        self.events.append([7] if taken else [4, k])
+        if k == 6:
+            # a cursor position report is not a typed key: it never enters the key buffer
+            self.cpr_snap = ([self.RK.get(x.key, -7) for x in self.p.key_buffer], self.prev_now())
+            return
         self.since_pop = 0
+        self.env_for_pending = None
         self.last_item_flush = (k == -1)
         if k != -1:
             self.stream.append(k)
@@ -248,10 +282,14 @@ class KPRun:
             finally:
                 self.in_handler = False
 
+        handler._c04i = idx
+
         def body(event):
             p = event.key_processor
             bufsnap = [self.RK.get(k.key, -7) for k in p.key_buffer]
             ks = [self.RK.get(k.key, -7) for k in event.key_sequence]
+            if ks == [6]:
+                return cpr_body(event, bufsnap)
             pos = self.sync(len(bufsnap))
             self.calls.append({"i": idx, "ks": ks, "buffer": bufsnap, "env": list(self.env.v[:self.nenv]),
                                "flush": self.last_item_flush, "first_pass": self.since_pop == 0,
@@ -275,6 +313,35 @@ class KPRun:
                     except Exception:
                         self.raise_info = (bufsnap[len(ks):], [self.from_item(x) for x in p.input_queue])
                         raise HandlerError()
+
+        def cpr_body(event, bufsnap):
+            # called by _handle_cpr_response: not a key delivery
+            p = event.key_processor
+            b = self.bindings[idx]
+            self.cpr_calls.append({"i": idx, "keys": b[0], "env": list(self.env.v[:self.nenv]), "is_repeat": event.is_repeat,
+                                   "arg_present": event.arg_present})
+            self.events.append([6, idx])
+            if self.env_for_pending is None:
+                # the pending keys were examined under these condition values; a report handler may change them
+                self.env_for_pending = [1 if x else 0 for x in self.env.v[:self.nenv]]
+            for a in acts:
+                if a[0] == 0:
+                    if a[1] < self.nenv:
+                        self.env.v[a[1]] = not self.env.v[a[1]]
+                elif a[0] == 1:
+                    self.cpr_snap = None
+                    self.raise_info = (bufsnap, [self.from_item(x) for x in p.input_queue])
+                    raise HandlerError()
+                elif a[0] == 2:
+                    self.events.append([5, a[1], a[2]])
+                    p.feed_multiple([self.to_item(k) for k in a[2]], first=bool(a[1]))
+                elif a[0] == 3:
+                    try:
+                        event.app.exit()
+                    except Exception:
+                        self.cpr_snap = None
+                        self.raise_info = (bufsnap, [self.from_item(x) for x in p.input_queue])
+                        raise HandlerError()
         return handler
 
     def run(self):
@@ -295,7 +362,7 @@ class KPRun:
                 buf = [self.RK.get(k.key, -7) for k in p.key_buffer]
                 q = [self.from_item(x) for x in p.input_queue]
                 envv = [1 if x else 0 for x in self.env.v[:self.nenv]]
-                out.append([0, [], [], buf, q, envv, 1 if self.app.is_done else 0])
+                out.append([0, [], [], buf, q, envv, 1 if self.app.is_done else 0, self.prev_now()])
                 self.op_records.append({"status": 0, "events": [], "popped": [], "buf": buf, "queue": q, "env": envv,
                                         "calls": [], "drops": [], "backs": [], "done": self.app.is_done, "after_raise": None, "last_flush": self.last_item_flush,
                                         "since_pop": self.since_pop, "stream": list(self.stream), "accounted": self.accounted,
@@ -306,6 +373,7 @@ class KPRun:
             self.events, self.popped, self.sends, self.raise_info = [], [], 0, None
             ncalls0 = len(self.calls)
             ndrops0 = len(self.drops)
+            ncpr0 = len(self.cpr_calls)
             nbacks0 = len(self.backs)
             done0 = self.app.is_done
             p.feed_multiple([self.to_item(k) for k in its])
@@ -328,6 +396,7 @@ class KPRun:
                 after_raise = ([self.RK.get(k.key, -7) for k in p.key_buffer], [self.from_item(x) for x in p.input_queue])
                 self.stream, self.accounted = [], 0
             elif status == 0:
+                self.check_cpr_frame()
                 self.sync(len(p.key_buffer))
             buf = [self.RK.get(k.key, -7) for k in p.key_buffer]
             q = [self.from_item(x) for x in p.input_queue]
@@ -338,9 +407,10 @@ class KPRun:
                 out.append([97])
                 self.op_records.append({"status": 97})
                 break
-            out.append([status, self.events, self.popped, buf, q, envv, 1 if self.app.is_done else 0])
+            out.append([status, self.events, self.popped, buf, q, envv, 1 if self.app.is_done else 0, self.prev_now()])
             self.op_records.append({"status": status, "events": self.events, "popped": self.popped, "buf": buf,
                                     "queue": q, "env": envv, "calls": self.calls[ncalls0:], "drops": self.drops[ndrops0:], "backs": self.backs[nbacks0:], "done": self.app.is_done, "done0": done0,
+                                    "cpr_calls": self.cpr_calls[ncpr0:], "cpr_broken": list(self.cpr_broken), "env_for_pending": self.env_for_pending,
                                     "after_raise": after_raise, "last_flush": self.last_item_flush,
                                     "since_pop": self.since_pop, "stream": list(self.stream),
                                     "accounted": self.accounted, "items": its})
@@ -435,19 +505,28 @@ def kp_oracle(case, recs):
             if r["after_raise"] != ([], []):
                 return ("handler exception did not leave the processor reset (key_buffer/input_queue not empty)", "exception-reset",
                         {"op": n, "after": r["after_raise"]})
+        if r.get("cpr_broken"):
+            return ("a cursor position report changed the key buffer or the previous-key bookkeeping", "cpr-frame", r["cpr_broken"][0])
+        for c in r.get("cpr_calls", []):
+            act = [i for i, x in ib if x[0] == [6] and feval(x[1], c["env"])]
+            if c["keys"] != [6] or not act or act[-1] != c["i"] or c["is_repeat"] or c["arg_present"]:
+                return ("a cursor position report was not delivered to the last registered active binding bound to exactly (CPRResponse,), "
+                        "with is_repeat False and no repetition argument", "cpr-binding", c)
         for bk in r["backs"]:
             if not (bk["handed_back"] == bk["buffer"] == bk["pending_in_input_order"]):
                 return ("the application was finished by a handler and the pending keys were not handed back to the input queue "
                         "in the order they were typed", "hand-back-order", bk)
-        if r["backs"] and r["status"] == 0:
+        last_back = max([j for j, ev in enumerate(r["events"]) if ev[0] == 3], default=-1)
+        if r["backs"] and r["status"] == 0 and not any(ev[0] == 5 for ev in r["events"][last_back + 1:]):
+            # (a report handler running afterwards may still feed keys in front)
             hb = r["backs"][-1]["handed_back"]
             if r["queue"][:len(hb)] != hb or r["buf"]:
                 return ("after the application was finished the keys not delivered are not at the front of the input queue, in input order",
                         "hand-back-order", {"op": n, "queue": r["queue"], "expected_front": hb})
-        if r["status"] == 0 and r["done"] and r.get("done0") and (r["popped"] or r["events"]):
+        if r["status"] == 0 and r["done"] and r.get("done0") and any(k != 6 for k in r["popped"]):
             return ("keys were processed although the application was already finished", "done-stops", {"op": n})
-        if r["status"] == 0 and not r.get("ext_flip") and not r["done"]:
-            buf, e = r["buf"], r["env"]
+        if r["status"] == 0 and not r.get("ext_flip") and not r["done"] and any(k != 6 for k in r["popped"]):
+            buf, e = r["buf"], (r.get("env_for_pending") or r["env"])
             if r["queue"]:
                 return ("process_keys returned with a non-empty input queue", "queue", {"op": n})
             if r["stream"][r["accounted"]:] != buf:
@@ -707,6 +786,84 @@ def reg_oracle(recs):
 
 
 # --------------------------------------------------------------------------
+# family 4: GlobalOnlyKeyBindings with a dynamic is_global
+
+def gd_impl(case):
+    from prompt_toolkit.key_binding.key_bindings import GlobalOnlyKeyBindings, KeyBindings
+    _, env0, ops = case
+    KM = keymap()
+    RK = {v: k for k, v in KM.items()}
+    env = Env(env0)
+    n = len(env0)
+    kb = KeyBindings()
+    g = GlobalOnlyKeyBindings(kb)
+    handlers = {}
+    out, recs = [], []
+    seen = []          # per binding: set of is_global values under the condition values seen since it was added
+    descr = []
+
+    def note_env():
+        for i, d in enumerate(descr):
+            seen[i].add(feval(d[3], [1 if x else 0 for x in env.v[:n]]))
+
+    for op in ops:
+        if op[0] == 0:
+            h = op[2]
+            if h not in handlers:
+                def fn(event):
+                    return None
+                fn._c04 = h
+                handlers[h] = fn
+            kb.add(*[KM[k] for k in op[1]], is_global=env.top(op[3]))(handlers[h])
+            descr.append(op)
+            seen.append(set())
+            note_env()
+        elif op[0] == 1:
+            if op[1] < n:
+                env.v[op[1]] = not env.v[op[1]]
+            note_env()
+        else:
+            shown = [[[RK.get(k, -7) for k in b.keys], getattr(b.handler, "_c04", -7)] for b in with_watchdog(lambda: g.bindings, 5)]
+            out.append(shown)
+            recs.append({"shown": shown, "all": [[d[1], d[2]] for d in descr], "seen": [sorted(x) for x in seen]})
+    return out, recs
+
+
+def gd_oracle(recs):
+    """the property text: lookups reflect the bindings added since - whatever is_global did in between, a binding
+    that was global all along is shown, one that never was is not, and nothing else appears"""
+    for r in recs:
+        it = iter(r["all"])
+        if not all(any(x == y for y in it) for x in r["shown"]):
+            return ("the global-only wrapper shows something that is not (in order) in the KeyBindings", "global-dyn", r)
+        for b, sv in zip(r["all"], r["seen"]):
+            if sv == [True] and b not in r["shown"]:
+                return ("a binding added since, global all along, is missing from the global-only wrapper", "global-dyn", r)
+            if sv == [False] and r["shown"].count(b) > sum(1 for x, s2 in zip(r["all"], r["seen"]) if x == b and s2 != [False]):
+                return ("a binding that was never global is shown by the global-only wrapper", "global-dyn", r)
+    return None
+
+
+def gen_globaldyn(chk, dist):
+    rng = chk.rng
+    cases = []
+    for _ in range(15000 if chk.tier == "thorough" else 1500):
+        ops = []
+        for _ in range(rng.randint(2, 14)):
+            r = rng.random()
+            if r < 0.4:
+                ops.append([0, rng.choice([[1], [2], [1, 2]]), rng.randrange(3), rng.choice([[0], [1], [2, 0], [2, 1], [3, [2, 0]], rand_f(rng, 2, 2)])])
+            elif r < 0.65:
+                ops.append([1, rng.randrange(2)])
+            else:
+                ops.append([2])
+        ops.append([2])
+        cases.append([4, [rng.randint(0, 1), rng.randint(0, 1)], ops])
+        dist["global_dynamic"] += 1
+    return cases
+
+
+# --------------------------------------------------------------------------
 # generators
 
 def rand_f(rng, depth, nc=NCOND):
@@ -784,12 +941,19 @@ def gen_keyproc(chk, dist):
         alpha = (1, 2) if small else (1, 2, 3, 4, 5)
         nb = rng.choice([1, 2, 2, 3, 3, 4, 5, 6])
         bs = [rand_binding(rng, i, alpha) for i in range(nb)]
+        cpr = rng.random() < 0.3
+        if cpr:
+            # cursor position reports: bindings on exactly (CPRResponse,), sometimes longer/wildcard ones around
+            for j in range(rng.choice([1, 1, 2])):
+                b = rand_binding(rng, len(bs), alpha)
+                b[0] = rng.choice([[6], [6], [6], [6, 1], [0]])
+                bs.append(b)
         ops = []
         for _ in range(rng.randint(1, 12)):
             if rng.random() < 0.08:
                 ops.append([-2 - rng.randrange(NCOND)] if rng.random() < 0.9 else [-1000])
                 continue
-            ops.append([rng.choice(list(alpha) + [alpha[0], -1] + ([0] if rng.random() < 0.1 else []))
+            ops.append([rng.choice(list(alpha) + [alpha[0], -1] + ([0] if rng.random() < 0.1 else []) + ([6, 6] if cpr else []))
                         for _ in range(rng.choice([1, 1, 1, 2, 3]))])
         cases.append([1, [rng.randint(0, 1) for _ in range(NCOND)], bs, ops, FUEL])
         wraps.append(rng.choice([0, 0, 1, 2, 3]))
@@ -951,20 +1115,25 @@ def impl_case(case, wrap=0):
     if fam == 2:
         out, recs = fl_impl(case)
         return out, fl_oracle(recs)
+    if fam == 4:
+        out, recs = gd_impl(case)
+        return out, gd_oracle(recs)
     r = RegRun(case)
     out, recs = r.run()
     return out, reg_oracle(recs)
 
 
-FAMILY = {1: "keyproc", 2: "filters", 3: "registry"}
+FAMILY = {1: "keyproc", 2: "filters", 3: "registry", 4: "global-dynamic"}
 
 
 def nontrivial(case, out):
     fam = case[0]
     if fam == 1:
-        return any(isinstance(r, list) and len(r) > 1 and any(ev[0] == 0 for ev in r[1]) for r in out)
+        return any(isinstance(r, list) and len(r) > 1 and any(ev[0] in (0, 6) for ev in r[1]) for r in out)
     if fam == 2:
         return any(o[0] >= 3 for o in case[2])
+    if fam == 4:
+        return any(r for r in out)
     return any(isinstance(r, list) and len(r) > 1 and r[1] for r in out)
 
 
@@ -983,10 +1152,10 @@ def main(tier):
 
     t0 = time.time()
     dist = {"keyproc_small_scope": 0, "keyproc_random": 0, "filters_small_scope": 0, "filters_random": 0,
-            "registry_random": 0, "registry_dynamic_switch": 0}
+            "registry_random": 0, "registry_dynamic_switch": 0, "global_dynamic": 0}
     kp_cases, wraps = gen_keyproc(chk, dist)
     fl_cases = gen_filters(chk, dist)
-    rg_cases = gen_registry(chk, dist)
+    rg_cases = gen_registry(chk, dist) + gen_globaldyn(chk, dist)
     corpus = load_corpus(PROP)
     cases = corpus + kp_cases + fl_cases + rg_cases
     wraps = [0] * len(corpus) + wraps + [0] * (len(fl_cases) + len(rg_cases))
@@ -997,7 +1166,7 @@ def main(tier):
     t0 = time.time()
     impl_results = []
     oracle_bad = set()
-    evcount = {"invoke": 0, "drop": 0, "raised": 0, "handed_back": 0, "pop": 0, "fed": 0, "fuel": 0}
+    evcount = {"invoke": 0, "drop": 0, "raised": 0, "handed_back": 0, "pop": 0, "fed": 0, "cpr_delivered": 0, "fuel": 0}
     for i, c in enumerate(cases):
         out, bad = impl_case(c, wraps[i])
         impl_results.append(out)
@@ -1006,7 +1175,7 @@ def main(tier):
             for r in out:
                 if len(r) > 1:
                     for ev in r[1]:
-                        evcount[{0: "invoke", 1: "drop", 2: "raised", 3: "handed_back", 4: "pop", 5: "fed"}.get(ev[0], "invoke")] += 1
+                        evcount[{0: "invoke", 1: "drop", 2: "raised", 3: "handed_back", 4: "pop", 5: "fed", 6: "cpr_delivered", 7: "pop"}.get(ev[0], "invoke")] += 1
                 else:
                     evcount["fuel"] += 1
         if bad:
@@ -1072,7 +1241,8 @@ def main(tier):
         "(keys over {a,b,Any} up to length 2 x filter {Always,c,~c} x eager {no,yes,c}) x both condition values x every sequence over "
         "{a,b,Flush,external flip of c} up to length 4; (2) histories of & | ~ over real Filter objects, compared by object identity, class, "
         "children and truth table; (3) add/remove/lookup histories through real KeyBindings and the four wrappers, compared by "
-        "(keys, handler, filter truth table, eager truth table, is_global, record_in_macro, save_before identity); bindings are added as plain "
+        "(keys, handler, filter truth table, eager truth table, is_global, record_in_macro, save_before identity); (4) a real "
+        "GlobalOnlyKeyBindings over a KeyBindings whose bindings have a dynamic is_global filter: adds, condition flips, .bindings; bindings are added as plain "
         "functions and as pre-built Binding objects (key_binding decorator). non-trivial = some handler fired / some operator "
         "applied / some lookup returned a binding; distinct by hash of the whole case" % ("6%" if chk.tier == "thorough" else "0.3%"))
     chk.assumptions += [
@@ -1084,7 +1254,7 @@ def main(tier):
     return chk.finish()
 
 
-KN = {0: "Any", 1: "a", 2: "b", 3: "c", 4: "d", 5: "c-x", -1: "<Flush>"}
+KN = {0: "Any", 1: "a", 2: "b", 3: "c", 4: "d", 5: "c-x", 6: "<cursor-position-response>", -1: "<Flush>"}
 
 
 def f_str(f):
@@ -1117,6 +1287,15 @@ def explain(case, wrap=0):
                 print("  then condition c%d flips (outside any handler)" % (-2 - o[0]))
             else:
                 print("  then feed %r; process_keys()" % [KN.get(k, k) for k in o])
+    elif case[0] == 4:
+        print("kb = KeyBindings(); g = GlobalOnlyKeyBindings(kb); conditions = %r" % (case[1],))
+        for o in case[2]:
+            if o[0] == 0:
+                print("  kb.add(%s, is_global=%s)(handler%d)" % (", ".join(repr(KN[k]) for k in o[1]), f_str(o[3]), o[2]))
+            elif o[0] == 1:
+                print("  condition c%d flips" % o[1])
+            else:
+                print("  g.bindings")
     elif case[0] == 2:
         print("objects #0 = to_filter(True), #1 = to_filter(False); then, each result getting the next number if it is a new object:")
         for o in case[2]:
@@ -1161,7 +1340,7 @@ def replay(data):
         explain(case, wrap)
     except Exception as e:  # noqa
         print("(case not explainable: %r)" % (e,))
-    print("per op: [status, events (0 i keys = handler of binding #i called; 1 k = key dropped; 2 = exception, discarded buffer/queue; 3 = keys handed back to the queue; 4 = pop; 5 = handler feed), popped, key_buffer, input_queue, conditions, is_done]"
+    print("per op: [status, events (0 i keys = handler of binding #i called; 1 k = key dropped; 2 = exception, discarded buffer/queue; 3 = keys handed back to the queue; 4 = pop; 5 = handler feed; 6 i = cursor position report delivered to binding #i; 7 = report taken from the queue after is_done), popped, key_buffer, input_queue, conditions, is_done, [previous handler, previous key sequence]]"
           if case[0] == 1 else "")
     for r in out:
         print("  impl:", r)
